@@ -340,7 +340,7 @@ def _points(fmt, lo, hi, st, quick, seed):
     s = cfg.step
     o = cfg.origin
     mags = MAGS_QUICK if quick else MAGS
-    between = [Fraction(1, 4), Fraction(1, 8), Fraction(3, 8)][seed % 3]
+    betweens = [Fraction(1, 4), Fraction(1, 8), Fraction(3, 8)]  # all of them: coverage counts do not depend on the seed
     signed = (cfg.lo is None and fmt in ("int", "float")) or (cfg.lo is not None and cfg.lo < 0)
     if s is not None:
         ks = {0, 1, 2, 3, 7}
@@ -357,8 +357,9 @@ def _points(fmt, lo, hi, st, quick, seed):
             g = o + k * s
             add(g, "grid")
             add(g + s / 2, "tie")
-            add(g + between * s, "between")
-            add(g + (1 - between) * s, "between")
+            for between in betweens[: 1 if quick else 3]:
+                add(g + between * s, "between")
+                add(g + (1 - between) * s, "between")
             u = ng.unit6(g + s / 2) or ng.unit6(s)
             eps = [u, u / 10] if quick else [u, u / 10, u / 1000, 10 * u]
             for e in eps:
@@ -379,8 +380,9 @@ def _points(fmt, lo, hi, st, quick, seed):
         for g in sorted(anchors):
             add(g, "grid")
             add(g + Fraction(1, 2), "tie")
-            add(g + between, "between")
-            add(g + 1 - between, "between")
+            for between in betweens[: 1 if quick else 3]:
+                add(g + between, "between")
+                add(g + 1 - between, "between")
             if not quick:
                 add(g + Fraction(1, 2) + ng.unit6(g + 1), "near-tie")
                 add(g + Fraction(1, 2) - ng.unit6(g + 1), "near-tie")
@@ -532,6 +534,7 @@ DOCUMENTED = [
     ("numeric", ("float", 10, 32, 2), [("documented", "float", v) for v in ("27.2", "28.2", "27.7")]),
     ("numeric", ("float", 10, 32, 5), [("documented", "float", v) for v in ("27.2", "25.0", "28.3")]),
     ("numeric", ("int", 4, 32, 1), [("documented", "float", v) for v in ("27.0", "27.5", "28.0", "28.5", "29.0", "29.5", "27.2", "27.6", "27.9")]),
+    ("numeric", ("uint64", 0, U64, 1), [("documented", "int", 1234567)]),
     ("numeric", ("uint16", None, None, 1), [("documented", "int", 1234567)]),
     ("numeric", ("uint8", None, None, 1), [("documented", "int", 1234567)]),
     ("garbage", ("uint8", None, None, None), [("str", "abc"), ("py", "None"), ("str", "inf"), ("str", "nan")]),
@@ -569,9 +572,12 @@ def run(ctx):
             bl.append({"kind": kind, "v": v, "expect": expect, "lo": 0, "hi": 1, "st": 1})
     work.append(("bool", bl))
 
+    # VERIF_SEED only shuffles the exploration order (which counterexample of a signature is met first)
+    import random
+
+    random.Random(ctx.seed).shuffle(work)
     ctx.pmap(_work, work)
-    # report the simplest failing input of every signature first
-    ctx.acc.viol.sort(key=lambda v: (len(str(v["params"].get("v"))), len(repr(v["params"]))))
+    # (the DOCUMENTED phase ran first, so its inputs are the reported examples of the signatures they hit)
     ctx.exhaustive = True
     ctx.bounds.update(
         configurations=n_cfg,
